@@ -498,6 +498,14 @@ class PanicInventory:
         rhi = iv.of(hi) if hi is not None else rl
         if rl and rlo and rhi and rlo[1] <= rhi[0] and rhi[1] <= rl[0]:
             return ("D1 constant range within the checked length %s" % list(rl), None)
+        # D7 on both ends: lo <= hi and hi <= len, each as a non-negative canonical difference (sizes built from the same formulas)
+        from mireval import len_term
+        lt = len_term(base)
+        if hi is not None and lt[0] != "len":
+            r1 = self.nonneg_difference(hi, lo)
+            r2 = self.nonneg_difference(lt, hi)
+            if r1 and r2:
+                return ("D7 range within the length: %s; %s" % (r1, r2), None)
         # D4: [4 .. data_bytes) of a Page's bytes
         return (None, "range %s..%s not shown within length %s" % (fmt_term(lo), fmt_term(hi) if hi else "", list(rl) if rl else "unknown"))
 
